@@ -32,7 +32,7 @@ func NewSerialClient(serialPort io.ReadWriteCloser, opts ...SerialClientOptionFu
 
 	client := &SerialClient{
 		readTimeout:         defaultReadTimeout,
-		asProtocolErrorFunc: packet.AsRTUErrorPacket,
+		asProtocolErrorFunc: packet.AsRTUErrorPacketWithCRC,
 		parseResponseFunc:   packet.ParseRTUResponseWithCRC,
 		serialPort:          serialPort,
 		hooks:               nil,
